@@ -119,6 +119,15 @@ func main() {
 			bad("MessageType %d/%d: value %#x want %#x, back %v", mth, cl, tp.Value(), want, back)
 		}
 	}
+	for v := 0; v < 65536; v++ {
+		var tp stun.MessageType
+		tp.ReadValue(uint16(v))
+		m := v&0xf | (v>>1)&0x70 | (v>>2)&0xf80
+		c := (v>>4)&1 | (v>>7)&2
+		if int(tp.Method) != m || int(tp.Class) != c {
+			bad("ReadValue(%#x) = method %#x class %d, RFC 5389 figure 3 says method %#x class %d", v, tp.Method, tp.Class, m, c)
+		}
+	}
 	// URIs
 	for _, u := range []string{"stun:example.org", "stuns:example.org:5349", "turn:[2001:db8::1]:3478?transport=tcp", "turns:192.0.2.1?transport=udp", "stun:h:65535", "stun:h:0"} {
 		p, err := stun.ParseURI(u)
